@@ -39,7 +39,7 @@ IO = 'chainables.io'
 
 
 def run(ctx: Ctx):
-  for r in (r1, r2, r3, r4, r6, r8, r9, r10, r11, r12, r14, r15, r16, r17):
+  for r in (r1, r2, r3, r4, r6, r8, r9, r10, r11, r12, r14, r15, r16, r17, r19):
     ctx.guard(r)
   from mlmverif.props import c12
   ctx.include('R-C10-18', '"continues with exactly the elements not yet delivered", for a pipeline that skips unreadable records: a'
@@ -1010,12 +1010,44 @@ def r17(ctx: Ctx):
   ctx.floor(rule, 2, n)
 
 
+def r19(ctx: Ctx):
+  rule = 'R-C10-19'
+  ctx.rule(rule, '"the aggregate at the end equals the aggregate of the uninterrupted run": a restored iterator runs under the SAME'
+           ' configuration as the one that was captured. In the from_state methods of transform.py every configuration'
+           ' keyword handed to the rebuilt iterator (`with_*`, `ignore_error`, `total`) is exactly one attribute of self (or a'
+           ' parameter) — not a combination of flags (`self._with_agg_result and self._with_result`): an aggregate-only'
+           ' iteration restored from a checkpoint would end without its aggregate result')
+  mi = ctx.repo.module('chainables.transform')
+  n = 0
+  for ci in mi.classes.values():
+    fi = ci.methods.get('from_state')
+    if fi is None:
+      continue
+    for c in ast.walk(fi.node):
+      if not isinstance(c, ast.Call):
+        continue
+      for k in c.keywords:
+        if not (k.arg and (k.arg.startswith('with_') or k.arg in ('ignore_error', 'total'))):
+          continue
+        n += 1
+        what = f'{ci.name}.from_state: `{k.arg}` is carried over unchanged'
+        if isinstance(k.value, (ast.BoolOp, ast.IfExp, ast.UnaryOp, ast.Compare)):
+          ctx.fail(rule, fi, what,
+                   f'`{k.arg}={unparse(k.value)[:60]}` computes the restored configuration from several flags: the restored iterator'
+                   ' does not behave like the captured one (its final aggregate result can be missing)', node=k.value)
+        else:
+          ctx.ok(rule, fi, what, k.value)
+  ctx.floor(rule, 4, n)
+
+
 from mlmverif.selfcheck import B, OK  # noqa: E402
 
 _F = 'chainables/io.py'
 _T = 'chainables/transform.py'
 _U = 'utils/iter_utils.py'
 VARIANTS = [
+    B('restored-iterator-drops-its-aggregate-result-flag', 'chainables/transform.py',
+      "        with_agg_result=self._with_agg_result,\n        # Only its truthiness is used", "        with_agg_result=self._with_agg_result and self._with_result,\n        # Only its truthiness is used", 'R-C10-19'),
     B('skip-wrapper-gives-up-after-many-failures', 'utils/iter_utils.py',
       "    except _IGNORE_ERROR_TYPES:\n      if error_return is not None:", "    except _IGNORE_ERROR_TYPES:\n      failures = getattr(iter_ignore_error, '_n', 0) + 1\n      iter_ignore_error._n = failures\n      if failures > 100:\n        raise\n      if error_return is not None:", 'R-C10-18'),
     B('shard-state-grafted-onto-the-live-source', 'chainables/transform.py',
